@@ -112,6 +112,8 @@ def solver_args(cfg, prof_kind="most_u", precision="double", unit=U):
 
 
 MODIFIED = []       # arguments the solver was seen to modify in place (reported by the check that drives the replays)
+FIRST = []          # the first solves of a run (copies of their arguments and results): repeated at the end of the run
+FIRST_LIMIT = 16
 
 
 def solve(q, kw, **over):
@@ -130,7 +132,28 @@ def solve(q, kw, **over):
                 MODIFIED.append(n)
             if a.shape == b.shape:
                 a[...] = b              # restore, so that the remaining comparisons of this run stay meaningful
+    if len(FIRST) < FIRST_LIMIT and not over.get("_repeat"):
+        import copy
+
+        kk = dict(kw)
+        kk.update(over)
+        FIRST.append((np.array(q, copy=True), copy.deepcopy(kk), np.array(conc, copy=True), np.array(flx, copy=True)))
     return grid, np.asarray(conc), np.asarray(flx)
+
+
+def repeat_first():
+    """re-solve the first solves of the run after everything else has run in this process: (index, max abs difference) of
+    those that no longer give bit-identical fields - nothing of the solves in between may survive in the process"""
+    steady, _ = _import()
+    bad = []
+    for i, (q, k, conc0, flx0) in enumerate(FIRST):
+        k = dict(k)
+        _, conc, flx = steady(q, k.pop("z"), k.pop("profiles"), k.pop("domain"), k.pop("levels"), **k)
+        conc, flx = np.asarray(conc), np.asarray(flx)
+        if conc.shape != conc0.shape or not (np.array_equal(conc, conc0, equal_nan=True) and np.array_equal(flx, flx0, equal_nan=True)):
+            d = float(max(np.max(np.abs(conc - conc0)), np.max(np.abs(flx - flx0)))) if conc.shape == conc0.shape else float("nan")
+            bad.append((i, d))
+    return bad
 
 
 def solve3(q, kw, **over):
